@@ -161,12 +161,47 @@ def run(prog, check):
              'GetCrossRate(A, B) defines A_B := A/B' if ok else 'GetCrossRate(A, B) defines %s' % [d.show() for d in defs],
              'non-unit rates: an inverted definition credits amount * XR_target / XR_source')
     rets = [r for r in ast.walk(m.node) if isinstance(r, ast.Return)]
+    # gold bought for a currency is valued at the prevailing rate: the gold price a sector sees is the gold sector's own (numeraire)
+    # price divided by the rate of the sector's currency - the same rate variable that converts the sector's payment into the numeraire
+    gold_cls = prog.classes.get('InternationalGold')
+    gm = prog.resolve_method(gold_cls, 'SetGoldPurchases') if gold_cls is not None else None
+    if gm is not None:
+        from ..algebra import Reader
+        from fractions import Fraction
+        itg = effects.run_method(prog, gold_cls, 'SetGoldPurchases', phase='prim')
+        for e in itg.effects:
+            if e.kind != 'def' or e.role == SELF or e.rhs is None:
+                continue
+            rd = Reader(e.role)
+            pg = rd.read(e.rhs)
+            own = [a for a in pg.atoms() if a[0] == 'var' and a[1] == SELF.key()]
+            if not own:
+                continue          # not a valuation of the gold sector's price
+            rates = [a for a in pg.atoms() if a[0] == 'var' and a[1] != SELF.key() and a[1] != e.role.key()]
+            okg = len(pg.terms) == 1 and len(own) == 1 and len(rates) == 1 and not rd.problems
+            if okg:
+                (mono, coef), = pg.terms.items()
+                okg = coef == Fraction(1) and dict(mono) == {own[0]: 1, rates[0]: -1}
+            check.saw(gm)
+            check.ob('C07.R1', '%s::local-gold-price(%s)' % (gm.key, e.name.show()), okg, e.where,
+                     'local gold price = numeraire gold price / rate of the local currency' if okg else
+                     'the local gold price is defined as %s: it is not the numeraire price converted at the rate of the buyer\'s currency, so the '
+                     'gold received is not worth the currency paid' % e.rhs.show(),
+                     'a gold purchase with a rate and a gold price different from 1.0')
     # ---- R4 ----------------------------------------------------------------------------------------
     n = external_sector_guards(prog, check, 'C07.R4')
     if n < 4:
         raise AnalysisError('expected at least 4 cross-currency booking sites, found %d' % n)
     if n_fx < 4:
         raise AnalysisError('expected at least 4 units with FX legs, found %d' % n_fx)
+    # what the intermediary receives, the sender gives up: the currency ledgers of the units with cross-currency legs balance
+    # (the clause C01.R1 decides per unit and branch; taken over here for the branches that have an external sector)
+    if not getattr(check, '_borrowing', False):
+        from ..report import Borrowed
+        from . import C01 as _c01
+        b01 = Borrowed(check, lambda rule, key: rule == 'C01.R1' and 'extsector()' in key, 'C07.R2',
+                       'a gold purchase / cross-currency flow: payer debited x, intermediary credited x in the same currency')
+        _c01.run(prog, b01)
     check.floor('C07.R1', 3)
     check.floor('C07.R2', 4)
     check.floor('C07.R3', 2)
